@@ -144,11 +144,24 @@ pub fn cmd_ser(args: &[String]) -> i32 {
                                 fn write(&mut self, buf: &[u8]) -> std::io::Result<usize> { let n = buf.len().min(self.1 - self.0.len()); self.0.extend_from_slice(&buf[..n]); Ok(n) }
                                 fn flush(&mut self) -> std::io::Result<()> { Ok(()) }
                             }
+                            fn retry_of<F: cookie_factory::SerializeFn<Limited>>(ser: F, n: usize) -> Value {
+                                let _ = cookie_factory::gen(&ser, Limited(Vec::new(), n / 2));
+                                let _ = cookie_factory::gen(&ser, Limited(Vec::new(), n.saturating_sub(1)));
+                                let _ = cookie_factory::gen(&ser, Limited(Vec::new(), 5.min(n)));
+                                match cookie_factory::gen(&ser, Limited(Vec::new(), n + 64)) { Ok((w, _)) => json!(w.0), Err(e) => json!(generr(e)) }
+                            }
+                            // (through the dispatcher and through the per-message serializer value itself: whichever object a caller keeps and re-runs)
                             let retry = {
-                                let ser = gen_tls_message(&m);
-                                let _ = cookie_factory::gen(&ser, Limited(Vec::new(), b.len() / 2));
-                                let _ = cookie_factory::gen(&ser, Limited(Vec::new(), b.len().saturating_sub(1)));
-                                match cookie_factory::gen(&ser, Limited(Vec::new(), b.len() + 64)) { Ok((w, _)) => json!(w.0), Err(e) => json!(generr(e)) }
+                                let r1 = retry_of(gen_tls_message(&m), b.len());
+                                let r2 = match &m {
+                                    TlsMessage::Handshake(TlsMessageHandshake::ClientHello(c)) => retry_of(gen_tls_clienthello(c), b.len()),
+                                    TlsMessage::Handshake(TlsMessageHandshake::ServerHello(c)) => retry_of(gen_tls_serverhello(c), b.len()),
+                                    TlsMessage::Handshake(TlsMessageHandshake::ServerHelloV13Draft18(c)) => retry_of(gen_tls_serverhellodraft18(c), b.len()),
+                                    TlsMessage::Handshake(TlsMessageHandshake::ClientKeyExchange(c)) => retry_of(gen_tls_clientkeyexchange(c), b.len()),
+                                    TlsMessage::Handshake(TlsMessageHandshake::Finished(c)) => retry_of(gen_tls_finished(c), b.len()),
+                                    _ => r1.clone(),
+                                };
+                                if r1 == json!(b) { r2 } else { r1 }
                             };
                             json!({"ok": true, "bytes": b, "parsed": parsed, "consumed": consumed, "bytes2": b2, "direct": direct, "per_fn": per_fn, "exact_ok": exact_ok, "short_err": short_err,
                                    "plain_writer": plain_writer, "retry": retry})
